@@ -102,7 +102,9 @@ fn render(case: &Case) -> String {
             let c = f.content();
             let extra = !case.quote.is_empty() && case.quote[qi % case.quote.len()];
             qi += 1;
-            if needs_quotes(&c, case.sep) || extra {
+            // a record that is one empty field must be written `""` (a blank line is no record)
+            let lone_empty = line.len() == 1 && c.is_empty();
+            if needs_quotes(&c, case.sep) || extra || lone_empty {
                 out.push('"');
                 out.push_str(&c.replace('"', "\"\""));
                 out.push('"');
@@ -463,8 +465,9 @@ pub fn check(env: &mut Env, case: &Case) -> Verdict {
     if case.rows.iter().any(|r| r.len() != cols) || cols == 0 {
         return Verdict::Discard("ragged-table".into());
     }
-    // a record that is one empty field is indistinguishable from a blank line: not generated
-    if cols == 1 && (case.rows.iter().any(|r| r[0] == Field::Empty || r[0] == Field::Text(String::new())) || matches!(&case.header, Some(h) if h[0] == Field::Empty || h[0] == Field::Text(String::new()))) {
+    // a record that is one empty field: on the parse side it is rendered as `""` (RFC 4180: one
+    // escaped empty field); on the write side it would be a blank line, which is ambiguous
+    if case.write && lone_empty_record(case) {
         return Verdict::Discard("single-empty-field-record".into());
     }
     if !case.write {
@@ -472,6 +475,11 @@ pub fn check(env: &mut Env, case: &Case) -> Verdict {
     } else {
         check_write(env, case)
     }
+}
+
+fn lone_empty_record(case: &Case) -> bool {
+    let e = |f: &Field| *f == Field::Empty || *f == Field::Text(String::new());
+    case.rows.iter().any(|r| r.len() == 1 && e(&r[0])) || matches!(&case.header, Some(h) if h.len() == 1 && e(&h[0]))
 }
 
 fn check_parse(env: &mut Env, case: &Case) -> Verdict {
@@ -499,11 +507,25 @@ fn check_parse(env: &mut Env, case: &Case) -> Verdict {
     if default {
         cl.push("parse_csv//1".into());
     }
+    // open finding: a record consisting of the single escaped empty field `""` ends the parse
+    let lone_sig = "lone-quoted-empty-record";
     match r {
         Res::Ok(Some(frame)) => {
             if let Err(why) = frame_matches(&frame, &recs, case.header.is_some()) {
+                if lone_empty_record(case) && why.contains("data rows, expected") {
+                    if tolerated(lone_sig) {
+                        return Verdict::pass(true, &["parse", "known:lone-quoted-empty-record"]);
+                    }
+                    return Verdict::fail(lone_sig, format!("{show} gave {}: {why}", short(&frame.text())));
+                }
                 return Verdict::fail("wrong-parse", format!("{show} gave {}: {why}", short(&frame.text())));
             }
+        }
+        Res::Failed if lone_empty_record(case) => {
+            if tolerated(lone_sig) {
+                return Verdict::pass(true, &["parse", "known:lone-quoted-empty-record"]);
+            }
+            return Verdict::fail(lone_sig, format!("{show} failed on an RFC 4180 document (a record that is the single escaped empty field)"));
         }
         Res::Failed => return Verdict::fail("rejected-valid", format!("{show} failed on an RFC 4180 document")),
         Res::Ex(b) => return Verdict::fail("parse-error", format!("{show} raised {}", b.text())),
